@@ -866,3 +866,176 @@ theorem spec_skip {pos0 : Bool} {pre : Bytes} {bom bom_s : Bom} (hs : Skips pos0
   | refill st carry off => simpa [shiftScan] using interp_shift pre y b (.refill st carry off) hcar
 
 end Jomini.TextReader
+
+namespace Jomini.TextReader
+open Jomini Jomini.TextReader.Spec
+
+/-! ### one call of `next_opt_fallback` agrees with the reference step -/
+
+/-- the result `res` of a call made at stream position `pos` with BOM state `bom`, the remaining input
+being `d`, is the one the reference step prescribes, and the reader is left in a state related to the
+remaining input. -/
+def Out (res : Res (Option Token)) (pos : Nat) (bom : Bom) (d : Bytes) : Prop :=
+  match specStep (pos == 0) bom d with
+  | some (.tok adv t b') => ∃ r', res = .ok r' (some t) ∧ Rel r' (pos + adv) b' (d.drop adv)
+  | some (.end_ b') => ∃ r', res = .ok r' none ∧ Rel r' (pos + d.length) b' []
+  | some (.eof a _) => ∃ r', res = .err r' .eof ∧ r'.position = pos + a
+  | none => True
+
+theorem Skips.nil_eq {pos0 : Bool} {i : Nat} {bom bom' : Bom} (h : Skips pos0 [] i bom bom') : bom' = bom := by
+  cases h; rfl
+
+theorem Out_skip {res : Res (Option Token)} {pos : Nat} {pre y : Bytes} {bom bom_s : Bom}
+    (hs : Skips (pos == 0) pre 0 bom bom_s) (h : Out res (pos + pre.length) bom_s y) : Out res pos bom (pre ++ y) := by
+  by_cases hne : pre = []
+  · subst hne
+    have := hs.nil_eq; subst this
+    simpa using h
+  · have hk : 0 < pre.length := by cases pre with | nil => exact absurd rfl hne | cons _ _ => simp
+    have hp : (pos + pre.length == 0) = false := by
+      have : pos + pre.length ≠ 0 := by omega
+      simpa using this
+    unfold Out at h ⊢
+    rw [spec_skip hs hne y]
+    rw [hp] at h
+    cases hsp : specStep false bom_s y with
+    | none => simp
+    | some st =>
+      rw [hsp] at h
+      cases st with
+      | tok adv t b' =>
+        simp only [Option.map_some, shiftStep] at h ⊢
+        obtain ⟨r', h1, h2⟩ := h
+        refine ⟨r', h1, ?_⟩
+        have e1 : pos + (adv + pre.length) = pos + pre.length + adv := by omega
+        have e2 : (pre ++ y).drop (adv + pre.length) = y.drop adv := by
+          rw [List.drop_append]; simp
+        rw [e1, e2]; exact h2
+      | end_ b' =>
+        simp only [Option.map_some, shiftStep] at h ⊢
+        obtain ⟨r', h1, h2⟩ := h
+        refine ⟨r', h1, ?_⟩
+        have e1 : pos + (pre ++ y).length = pos + pre.length + y.length := by simp; omega
+        rw [e1]; exact h2
+      | eof a b' =>
+        simp only [Option.map_some, shiftStep] at h ⊢
+        obtain ⟨r', h1, h2⟩ := h
+        exact ⟨r', h1, by rw [h2]; omega⟩
+
+end Jomini.TextReader
+
+namespace Jomini.TextReader
+open Jomini Jomini.TextReader.Spec
+
+/-- the induction hypothesis of the main theorem: calls on readers with fewer undelivered bytes -/
+def IHyp (n : Nat) : Prop :=
+  ∀ (r' : Reader) (pos' : Nat) (bom' : Bom) (d' : Bytes) (fuel' : Nat),
+    r'.src.rest.length < n → Rel r' pos' bom' d' → 2 * r'.src.rest.length + 4 ≤ fuel' →
+    Out (run fuel' .fallback r') pos' bom' d'
+
+theorem run_fallback_unfold (f : Nat) (r : Reader) :
+    run (f + 1) .fallback r =
+      match fbLoop (r.position == 0) r.win .top 0 r.bom with
+      | (bom, .tok adv t) =>
+        match advance { r with bom := bom } adv with
+        | some r' => .ok r' (some t)
+        | none => .panic
+      | (bom, .refill st c o) => run f (.refill st c o) { r with bom := bom }
+      | (bom, .bomFill) =>
+        match fillBuf { r with bom := bom } with
+        | (r', .ok 0) => run f .fallback { r' with bom := .notPresent }
+        | (r', .ok _) => run f .fallback r'
+        | (r', .full) => .err r' .full
+        | (r', .io) => .err r' .io := by
+  rw [run]
+  rfl
+
+/-- the scan asked to re-scan the carried bytes `tail` (state `None`): end of input, or the call continues
+on the carried bytes plus what the next read delivers. -/
+theorem core_rescan {r : Reader} {pos : Nat} {bom bom_s : Bom} {d pre tail : Bytes} {off f : Nat}
+    (IH : IHyp r.src.rest.length)
+    (hrel : Rel r pos bom d) (hwin : r.win = pre ++ tail) (hs : Skips (pos == 0) pre 0 bom bom_s)
+    (hscan : fbLoop (pos == 0) (pre ++ tail) .top 0 bom = (bom_s, .refill .none tail.length off))
+    (hfuel : 2 * r.src.rest.length + 4 ≤ f + 2) :
+    Out (run (f + 2) .fallback r) pos bom d := by
+  have hd : d = pre ++ (tail ++ r.src.rest) := by rw [← hrel.data, hwin]; simp
+  have hrelb : Rel { r with bom := bom_s } pos bom_s d := hrel.setBom bom_s
+  obtain ⟨r0, hadv, hrel0, hwin0, hsrc0, _⟩ := hrelb.advance pre.length (by simp [hwin])
+  have hsrc0 : r0.src = r.src := hsrc0
+  have hscan' : fbLoop (pos == 0) r.win .top 0 bom = (bom_s, .refill .none tail.length off) := by rw [hwin]; exact hscan
+  have hwin0' : r0.win = tail := by rw [hwin0]; simp [hwin]
+  have e : ({ r with bom := bom_s } : Reader).win.length - tail.length = pre.length := by simp [hwin]
+  have hgt : ¬ tail.length > ({ r with bom := bom_s } : Reader).win.length := by simp [hwin]
+  have hdd : d.drop pre.length = tail ++ r.src.rest := by rw [hd]; simp
+  rw [hdd] at hrel0
+  have hstep : run (f + 2) .fallback r = 
+      match fillBuf r0 with
+      | (r1, .ok 0) =>
+          if tail.length == 0 then .ok r1 none
+          else
+            match r1.win with
+            | [] => .ub
+            | c :: _ =>
+              if c == 35 then
+                match advance r1 tail.length with
+                | some r2 => .ok r2 none
+                | none => .panic
+              else .err r1 .eof
+      | (r1, .ok _) => run f .fallback r1
+      | (r1, .full) => .err r1 .full
+      | (r1, .io) => .err r1 .io := by
+    rw [run_fallback_unfold, hrel.pos, hrel.bom, hscan']
+    simp only
+    rw [run]
+    simp only [e, hadv, hgt, if_false]
+    rfl
+  rw [hstep]
+  by_cases he : r.src.rest = []
+  · have hrest0 : r0.src.rest = [] := by rw [hsrc0]; exact he
+    obtain ⟨r1, hfill, hrel1, hwin1, hrest1⟩ := hrel0.fill_end hrest0
+    rw [hfill]
+    simp only
+    have hdw : d = pre ++ tail := by rw [hd, he]; simp
+    unfold Out
+    have hspec : specStep (pos == 0) bom d = interp d (bom_s, .refill .none tail.length off) := by
+      unfold specStep; rw [hdw, hscan]
+    rw [hspec]
+    simp only [interp]
+    by_cases ht : tail = []
+    · subst ht
+      simp only [List.length_nil, beq_self_eq_true, if_true]
+      refine ⟨r1, rfl, ?_⟩
+      have : pos + d.length = pos + pre.length := by rw [hdw]; simp
+      rw [this]
+      simpa [he] using hrel1
+    · have hne : (tail.length == 0) = false := by
+        cases tail with | nil => exact absurd rfl ht | cons _ _ => simp
+      simp only [hne, Bool.false_eq_true, if_false]
+      have hdrop : d.drop (d.length - tail.length) = tail := by rw [hdw]; simp
+      rw [hdrop, hwin1, hwin0']
+      cases tail with
+      | nil => exact absurd rfl ht
+      | cons c tl =>
+        simp only
+        by_cases h35 : (c == 35) = true
+        · simp only [h35, if_true]
+          obtain ⟨r2, hadv2, hrel2, _, _, _⟩ := hrel1.advance (c :: tl).length (by rw [hwin1, hwin0']; exact Nat.le_refl _)
+          simp only [hadv2]
+          refine ⟨r2, rfl, ?_⟩
+          have e1 : pos + d.length = pos + pre.length + (c :: tl).length := by rw [hdw]; simp; omega
+          have e2 : ((c :: tl) ++ r.src.rest).drop (c :: tl).length = [] := by rw [he]; simp
+          rw [e1, ← e2]; exact hrel2
+        · simp only [h35, Bool.false_eq_true, if_false]
+          refine ⟨r1, rfl, ?_⟩
+          rw [hrel1.pos, hdw]; simp
+  · have hrest0 : r0.src.rest ≠ [] := by rw [hsrc0]; exact he
+    obtain ⟨r1, k, hfill, hrel1, hk, hwin1, hrest1⟩ := hrel0.fill_more hrest0
+    rw [hfill]
+    simp only
+    rw [hsrc0] at hk hrest1
+    have hl1 : r1.src.rest.length + (k + 1) = r.src.rest.length := by rw [hrest1]; simp; omega
+    have := IH r1 (pos + pre.length) bom_s (tail ++ r.src.rest) f (by omega) hrel1 (by omega)
+    rw [hd]
+    exact Out_skip hs this
+
+end Jomini.TextReader
